@@ -21,7 +21,9 @@ RULE = ("cases = (a) generator parameter sets + seed (biased to >= 4 services wi
         "(scenario, np.random seed, flat action list): sha256 of the whole trajectory (observation bytes, rewards, flags, canonical "
         "info) twice in-process and once in a subprocess. Non-trivial = generated scenario with an inter-zone firewall rule that "
         "was chosen by sampling (rule size == restrictiveness < number of vulnerable services of the destination subnet), or a "
-        "trajectory with at least one chance-decided step; distinct by parameter set / (scenario, seed, actions).")
+        "trajectory with at least one chance-decided step; distinct by parameter set / (scenario, seed, actions). (c) generation without "
+        "a seed argument after np.random.seed(g) (generated benchmarks via make_benchmark_scenario, parameter sets via generate_scenario): "
+        "twice in-process with an explicitly seeded call of the same entry point in between, and in fresh subprocesses.")
 
 
 def scenario_fingerprint(scn):
@@ -185,6 +187,10 @@ def worker_main(path):
             if j["what"] == "fp":
                 src = engine.case_from_json(dict(source=j["source"], ops=[]))["source"] if j["source"]["kind"] in ("gen", "doc") else j["source"]
                 out.append(scenario_fingerprint(build_scenario(src)))
+            elif j["what"] == "fpg":
+                src = engine.case_from_json(dict(source=j["source"], ops=[]))["source"] if j["source"]["kind"] in ("gen", "doc") else j["source"]
+                np.random.seed(j["gseed"])
+                out.append(scenario_fingerprint(build_scenario(src)))
             else:
                 src = engine.case_from_json(dict(source=j["source"], ops=[]))["source"] if j["source"]["kind"] in ("gen", "doc") else j["source"]
                 out.append(trajectory_hash(src, j["seed"], j["actions"], j["modes"])[0])
@@ -292,6 +298,14 @@ def main(tier, replay=None):
         if tier == "thorough" or b["num_hosts"] <= 40:
             for s in ((0, 1, 2) if tier == "thorough" else (0, 1)):
                 jobs.append(dict(what="fp", source={"kind": "bench", "name": name, "seed": s}))
+    # (c) generation WITHOUT a seed argument draws from the global generator: seeded identically it must give the
+    # identical scenario whatever was generated before in the process (an explicitly seeded call in between) and in
+    # a fresh process
+    for k, (name, b) in enumerate(AVAIL_GEN_BENCHMARKS.items()):
+        if tier == "thorough" or b["num_hosts"] <= 40:
+            jobs.append(dict(what="fpg", source={"kind": "bench", "name": name, "seed": None}, gseed=1000 + k))
+    for k, p in enumerate(plist[:60 if tier == "thorough" else 12]):
+        jobs.append(dict(what="fpg", source={"kind": "gen", "params": {a: v for a, v in p.items() if a != "seed"}}, gseed=77 + k))
     jobs += tlist
     # in-process, twice
     first, second, chance_steps = [], [], []
@@ -310,6 +324,15 @@ def main(tier, replay=None):
                 else:
                     nt = sampled_rule(scn, AVAIL_GEN_BENCHMARKS[j["source"]["name"]])
                 chance_steps.append(1 if nt else 0)
+            elif j["what"] == "fpg":
+                np.random.seed(j["gseed"])
+                scn = build_scenario(j["source"])
+                first.append(scenario_fingerprint(scn))
+                src7 = dict(j["source"], seed=7) if j["source"]["kind"] == "bench" else dict(j["source"], params=dict(j["source"]["params"], seed=7))
+                build_scenario(src7)          # history: the same generator entry point called with an explicit seed
+                np.random.seed(j["gseed"])
+                second.append(scenario_fingerprint(build_scenario(j["source"])))
+                chance_steps.append(1)
             else:
                 h1, ch = trajectory_hash(j["source"], j["seed"], j["actions"], j["modes"])
                 h2, _ = trajectory_hash(j["source"], j["seed"], j["actions"], j["modes"])
@@ -345,7 +368,7 @@ def main(tier, replay=None):
         results.append(full)
     for i, j in enumerate(jobs):
         rep.evaluated()
-        kind = "generation" if j["what"] == "fp" else "trajectory"
+        kind = {"fp": "generation", "fpg": "unseeded-generation-under-seeded-global-generator"}.get(j["what"], "trajectory")
         rep.count(kind)
         if str(first[i]).startswith("ERROR"):
             # generation failure: owned by C15
